@@ -48,6 +48,7 @@ class Ctx {
     void label(const std::string &l);              // class hit (counted once per case)
     void nontrivial();                             // mark the whole case non-trivial
     void nontrivial_item(const std::string &fp);   // batch mode: one distinct non-trivial item
+    void nontrivial_count(long n);                 // batch mode: n distinct (by construction) non-trivial items
     void evals(long n);                            // batch mode: n evaluations inside this case
     void excluded(const std::string &finding);     // an op skipped by a quarantine predicate
     bool quarantined(const std::string &name) const { return quar_.count(name) != 0; }
@@ -89,6 +90,7 @@ struct Result {
     std::vector<std::string> nt_items;
     std::vector<std::string> samples;
     long evals = 1;
+    long nt_count = 0;
     bool nontrivial = false;
     bool failed() const { return kind != "ok"; }
     std::string signature() const;
